@@ -174,7 +174,17 @@ func rulesC08(p *Prog, r *Report) {
 		if len(args) < 6 {
 			return false
 		}
-		return p.originHasField(args[5], "AssetRatesParams", "Ltv") || p.originHasField(args[5], "AssetRatesParams", "ELtv")
+		if !(p.originHasField(args[5], "AssetRatesParams", "Ltv") || p.originHasField(args[5], "AssetRatesParams", "ELtv")) {
+			return false
+		}
+		// enlarging an existing borrow: the debt checked is principal AND accrued interest (plus the
+		// new amount); a check on the principal alone lets the position exceed its loan-to-value
+		if p.fromRecordFieldsLoose(args[3], map[string]bool{"BorrowAsset": true}, map[string]bool{"AmountOut": true}) {
+			if !p.fromRecordFieldsLoose(args[3], map[string]bool{"BorrowAsset": true}, map[string]bool{"InterestAccumulated": true}) {
+				return false
+			}
+		}
+		return true
 	}}
 	isBal := func(v ssa.Value) bool {
 		for _, o := range p.DeepOrigins(v) {
